@@ -20,6 +20,31 @@ type Clause struct {
 	Expr SExpr
 	Src  string
 	Ord  int
+	Name string // optional stable name: ensures[C11:removed_doc_stores_nothing] ...
+}
+
+// label of a clause in obligation keys: its name if it has one, else its ordinal
+func (c Clause) Label() string {
+	if c.Name != "" {
+		return "@" + c.Name
+	}
+	return fmt.Sprint(c.Ord)
+}
+
+// splitTagNames: "C11:name" -> tag C11 and the clause name
+func splitTagNames(tags []string) ([]string, string) {
+	var out []string
+	name := ""
+	for _, t := range tags {
+		if i := strings.Index(t, ":"); i >= 0 {
+			name = t[i+1:]
+			t = t[:i]
+		}
+		if t != "" {
+			out = append(out, t)
+		}
+	}
+	return out, name
 }
 
 type ModEntry struct {
@@ -392,11 +417,16 @@ func (w *World) parseFuncContract(it rawItem, pkg *types.Package, external bool)
 		switch kw {
 		case "requires", "ensures", "ensures-on-panic":
 			tags, src := parseTags(rest)
+			tags, cname := splitTagNames(tags)
 			x, err := parseSpec(src)
 			if err != nil {
 				return err
 			}
-			cl := Clause{Tags: append(append([]string{}, ftags...), tags...), Expr: x, Src: src, Ord: ord[kw]}
+			ctags := tags
+			if len(ctags) == 0 {
+				ctags = ftags
+			}
+			cl := Clause{Tags: ctags, Expr: x, Src: src, Ord: ord[kw], Name: cname}
 			ord[kw]++
 			switch kw {
 			case "requires":
@@ -496,7 +526,11 @@ func (w *World) parseFuncContract(it rawItem, pkg *types.Package, external bool)
 			if err != nil {
 				return err
 			}
-			c.AssertAts = append(c.AssertAts, AssertAt{Callee: callee, Ord: k, Clause: Clause{Tags: append(append([]string{}, ftags...), tags...), Expr: x, Src: src, Ord: len(c.AssertAts)}})
+			atags := tags
+			if len(atags) == 0 {
+				atags = ftags
+			}
+			c.AssertAts = append(c.AssertAts, AssertAt{Callee: callee, Ord: k, Clause: Clause{Tags: atags, Expr: x, Src: src, Ord: len(c.AssertAts)}})
 		case "let":
 			i := strings.Index(rest, "=")
 			if i < 0 {
